@@ -96,8 +96,10 @@ def run(ctx: Ctx) -> int:
                 )
     ctx.floor("C10.a", n, 9)
     # the very first early-out and the instance early-outs
-    first = ad.body[0]
-    ok = isinstance(first, ast.If) and "val == default" in ast.unparse(first.test) and isinstance(first.body[0], ast.Return)
+    firsts = [x for x in ad.body if isinstance(x, ast.If) and "val == default" in ast.unparse(x.test)]
+    first = firsts[0] if firsts else ad
+    gad = ctx.cfg(ad)
+    ok = bool(firsts) and isinstance(first.body[0], ast.Return) and all(isinstance(b, (ast.Pass, ast.Expr)) for b in ad.body[: ad.body.index(first)])
     ctx.oblige("C10.a", ok, first, "scalar values equal to the default are returned untouched" if ok else "the default early-out of adapt_typehints changed", fn=ad, construct="default early-out")
     inst = [x for x in walk_local(ad) if isinstance(x, ast.If) and ast.unparse(x.test) == "is_instance_or_supports_protocol(val, typehint)"]
     ok = bool(inst) and any(isinstance(r, ast.Return) and root_name(r.value) == "val" for r in walk_local(inst[0]))
